@@ -14,6 +14,12 @@ for flag in (False, True):
                            ignore_class_notfound=flag, patterns=pats))
         CLAUSES.append(inv({"classes/a.yml": cls("a"), "nodes/n.yml": cls("n", ["missing.one", "a", "gone"])},
                            ignore_class_notfound=flag, patterns=pats))
+# a reference-bearing include resolving to a RELATIVE name inside a class in a sub-directory: the
+# decision is about the absolute name (service.dep), not the text as written (.dep)
+for pats in (["^service\\."], ["^\\.", "^other\\."], [".*"], ["dep$"]):
+    for flag in (True, False):
+        CLAUSES.append(inv({"classes/base.yml": cls("base", dep_class=".dep"), "classes/service/foo.yml": cls("service.foo", ["${dep_class}"]),
+                            "nodes/n.yml": cls("n", ["base", "service.foo"])}, ignore_class_notfound=flag, patterns=pats))
 # an existing class whose name matches the pattern is never skipped
 CLAUSES.append(inv({"classes/missing/one.yml": cls("missing.one"), "nodes/n.yml": cls("n", ["missing.one"])},
                    ignore_class_notfound=True, patterns=["^missing"]))
@@ -42,6 +48,13 @@ class C16(InvProp):
                 cfg["patterns"] = p
             c = GI.gen_inventory(r, n_classes=r.range(1, 5), shape=r.choice(["tree", "dag", "chain"]), n_nodes=r.range(1, 2),
                                  missing=2, nested=r.chance(1, 3), relative=r.choice([0, 40]), cfg=cfg)
+            if i % 3 == 0:
+                # missing class named through a reference that resolves to a relative spelling
+                cfg2 = dict(cfg)
+                cfg2["patterns"] = r.choice([["^d1\\."], ["^\\."], ["gone$"], ["^d1\\.gone$"], [".*"], ["^gone"]])
+                yield inv({"classes/base.yml": cls("base", relname=r.choice([".gone", "..gone", "gone", ".sub.gone"])),
+                           "classes/d1/user.yml": cls("d1.user", ["${relname}"]), "classes/ok.yml": cls("ok"),
+                           "nodes/n.yml": cls("n", ["base", "d1.user", "ok"])}, **cfg2)
             yield c
             # twin with every missing include removed: compared in post_check
             if cfg["ignore_class_notfound"] and p in (None, [".*"]):
